@@ -26,11 +26,11 @@ _REC2 = data.Recording(path="b.wav", duration=2000.0, channels=2, samplerate=441
 
 def _run(case, u):
     clip = data.Clip(recording=_REC, start_time=case["s"] * u, end_time=case["e"] * u,
-                     uuid=uuid.UUID(int=1000 + case["s"] * 1024 + case["e"]))
+                     uuid=uuid.UUID(int=1000 + (case["s"] + 1_000_000) * 1024 + case["e"]))
     # the same bounds on ANOTHER recording under another parent id, segmented right afterwards in the same process:
     # a result must depend on its own arguments only
     other = data.Clip(recording=_REC2, start_time=case["s"] * u, end_time=case["e"] * u,
-                      uuid=uuid.UUID(int=5_000_000 + case["s"] * 1024 + case["e"]))
+                      uuid=uuid.UUID(int=5_000_000 + (case["s"] + 1_000_000) * 1024 + case["e"]))
     kw = {}
     if case["h"]:
         kw["hop"] = case["h"][0] * u
@@ -48,7 +48,7 @@ def _run(case, u):
     try:
         # the base clip is SHORTER than the case's clip (half its length): a stale duration would end the loop early
         base = data.Clip(recording=_REC, start_time=case["s"] * u, end_time=(case["s"] + (case["e"] - case["s"]) // 2) * u,
-                         uuid=uuid.UUID(int=7_000_000 + case["s"] * 1024 + case["e"]))
+                         uuid=uuid.UUID(int=7_000_000 + (case["s"] + 1_000_000) * 1024 + case["e"]))
         _ = base.duration
         list(segment_clip(base, max(case["d"], 1) * u))
         derived = base.model_copy(update={"end_time": case["e"] * u})
@@ -81,7 +81,7 @@ STRESS_UNITS = [0.1, 0.3, 1.0 / 3.0]      # not representable: only clauses that
 def _stress(case, u):
     """decimal units: bounds are shipped as limb numbers; only order facts are judged (InsideNonEmpty)"""
     clip = data.Clip(recording=_REC, start_time=case["s"] * u, end_time=case["e"] * u,
-                     uuid=uuid.UUID(int=9_000_000 + case["s"] * 1024 + case["e"]))
+                     uuid=uuid.UUID(int=9_000_000 + (case["s"] + 1_000_000) * 1024 + case["e"]))
     kw = {}
     if case["h"]:
         kw["hop"] = case["h"][0] * u
@@ -110,6 +110,8 @@ def random_cases(rng, tier):
         ln = rng.randrange(0, 400) if k % 3 else rng.randrange(1, 40)
         d = rng.randrange(1, 60) if k % 3 else rng.randrange(1, 6)
         h = rng.choice([[], [d], [rng.randrange(1, 80)], [max(1, ln // rng.randrange(1, 9))]]) if k % 3 else rng.choice([[1], [2], [d]])
+        if k % 7 == 3:
+            s = -rng.randrange(1, 60)        # a clip that starts before the recording (negative start: legal, padded clips)
         yield {"s": s, "e": s + ln, "d": d, "h": h, "inc": rng.random() < 0.5}
 
 def nontrivial(o):
